@@ -1,8 +1,8 @@
 #!/verif/.venv/bin/python
 # Replay of a solver counterexample against the unmodified code (no shims).
-# property=C08 kernel=build label=build:equals_direct_construction
+# property=C08 kernel=build label=build:same_static_parts
 import sys
 sys.path[:0] = ['/repo' + "/pulser-core", '/repo' + "/pulser-simulation", "/verif"]
 from symx.replay import replay
-sys.exit(replay(check='checks.c08', kernel='build', shape={'program': 'blackman_shared_neg'},
-                assignment={}, label='build:equals_direct_construction'))
+sys.exit(replay(check='checks.c08', kernel='build', shape={'program': 'mappable_index_full'},
+                assignment={'v_a0': '1/8', 'w_a0': '1/8'}, label='build:same_static_parts'))
